@@ -62,7 +62,7 @@ func c16Names(thorough bool) []string {
 
 func C16(r *ck.Run) {
 	requireInstrumented()
-	r.Rule("(a) every string of length <= 4 over {a,z,A,0,9,'.','-','_'} plus boundary lengths and shaped names through IsValidBucketName and (stride) through PUT /name, against the S3 naming predicate; (b) CreateBucket on every existing-bucket state (written to, or configured but never written to) × creator × headers, and ListBuckets over every population of <= 4 buckets of 3 owners × prefix × max-buckets × token walk for user and admin callers; (c) ACL documents (one grantee in several grants, the owner's own grant, written back as read) read back before and after a restart, a deleted bucket re-created under another owner on every metadata store (no setting survives), DELETE / PUT with every bucket sub-resource the gateway does not implement (bucket and settings stay), and breadth-first search over put/get/delete of every bucket setting (tags, policy, ACL, ownership controls, versioning, lock configuration) with restarts, read back after every step, and DeleteBucket on every non-empty state; (d) every interleaving with bounded preemptions of DeleteBucket against PutObject / nested PutObject / CreateMultipartUpload / UploadPart / CompleteMultipartUpload / CreateBucket / PutBucketTagging on real posix backends; distinct = distinct name / population+query / state / schedule")
+	r.Rule("(a) every string of length <= 4 over {a,z,A,0,9,'.','-','_'} plus boundary lengths and shaped names through IsValidBucketName and (stride) through PUT /name, against the S3 naming predicate; (b) CreateBucket on every existing-bucket state (written to, or configured but never written to) × creator × headers, and ListBuckets over every population of <= 4 buckets of 3 owners (two of whose access keys differ in letter case only) × prefix × max-buckets × token walk for user and admin callers; (c) ACL documents (one grantee in several grants, the owner's own grant, written back as read) read back before and after a restart, a deleted bucket re-created under another owner on every metadata store (no setting survives), DELETE / PUT with every bucket sub-resource the gateway does not implement (bucket and settings stay), and breadth-first search over put/get/delete of every bucket setting (tags, policy, ACL, ownership controls, versioning, lock configuration) with restarts, read back after every step, and DeleteBucket on every non-empty state; (d) every interleaving with bounded preemptions of DeleteBucket against PutObject / nested PutObject / CreateMultipartUpload / UploadPart / CompleteMultipartUpload / CreateBucket / PutBucketTagging on real posix backends; distinct = distinct name / population+query / state / schedule")
 	r.Assume("reserved bucket-name prefixes and suffixes (xn--, -s3alias, ...) may be accepted or refused; single syscalls are atomic; (d) runs at the backend seam (the ACL lookup of the HTTP layer is not part of the interleaving)")
 	names := c16Names(r.Thorough())
 	r.Sharded(16, func() {
@@ -182,14 +182,16 @@ func c16CreateExisting(r *ck.Run) {
 
 // (b2) ListBuckets over populations
 func c16ListBuckets(r *ck.Run) {
-	owners := []gw.Creds{cUsr1, cUsr2, cUp}
+	// two of the owners have access keys that differ in letter case only: they are different accounts
+	cUSR1 := gw.Creds{Access: "USR1", Secret: "USR1secretUSR1secret"}
+	owners := []gw.Creds{cUsr1, cUSR1, cUp}
 	pool := []string{"aa-one", "aa-two", "bb-one", "bb-two"}
 	f := NewFx("c16l", gw.Opts{})
 	defer f.Close()
 	for _, u := range []struct {
 		c    gw.Creds
 		role string
-	}{{cUsr1, "user"}, {cUsr2, "user"}, {cUp, "userplus"}, {cAdm, "admin"}} {
+	}{{cUsr1, "user"}, {cUSR1, "user"}, {cUp, "userplus"}, {cAdm, "admin"}} {
 		Must(f.Do(gw.Root, "PATCH", "/create-user", "", nil, xmlUser(u.c, u.role, 0, 0)), "create user")
 	}
 	// every assignment of each pool bucket to {absent, owner0, owner1, owner2}
@@ -218,7 +220,7 @@ func c16ListBuckets(r *ck.Run) {
 			Must(f.CreateBucket(gw.Root, b), "create")
 			Must(f.Do(gw.Root, "PATCH", "/change-bucket-owner", gw.Q("bucket", b, "owner", o), nil, nil), "chown")
 		}
-		for _, caller := range []gw.Creds{cUsr1, cUsr2, cUp, cAdm, gw.Root} {
+		for _, caller := range []gw.Creds{cUsr1, cUSR1, cUp, cAdm, gw.Root} {
 			for _, prefix := range []string{"", "aa", "bb-t", "zz"} {
 				var want []string
 				for b, o := range own {
@@ -432,23 +434,35 @@ func c16Recreate(r *ck.Run) {
 				"object-lock":       "<ObjectLockConfiguration><ObjectLockEnabled>Enabled</ObjectLockEnabled><Rule><DefaultRetention><Mode>COMPLIANCE</Mode><Days>30</Days></DefaultRetention></Rule></ObjectLockConfiguration>",
 				"cors":              "<CORSConfiguration><CORSRule><AllowedOrigin>http://first.example</AllowedOrigin><AllowedMethod>GET</AllowedMethod></CORSRule></CORSConfiguration>",
 			}
+			store := "xattr"
+			if cfg.Sidecar {
+				store = "sidecar"
+			}
+			broken := false
 			for _, q := range []string{"tagging", "policy", "object-lock", "cors"} {
 				if resp := f.Do(gw.Root, "PUT", "/reb", q, nil, []byte(written[q])); !resp.OK() && q != "cors" {
-					ck.Fatal("c16 recreate: put %s: %s", q, resp)
+					r.Violation(ck.JoinSig("recreate", store, "valid-setting-refused", q, fmtResp(resp)), map[string]any{"config": fmt.Sprintf("%+v", cfg), "setting": q, "document": written[q], "response": resp.String()})
+					broken = true
 				}
 			}
-			Must(f.Do(gw.Root, "PUT", "/reb", "acl", H("x-amz-grant-read", "usr3"), nil), "put acl")
-			Must(f.Do(gw.Root, "DELETE", "/reb", "", nil, nil), "delete bucket")
+			if resp := f.Do(gw.Root, "PUT", "/reb", "acl", H("x-amz-grant-read", "usr3"), nil); !resp.OK() {
+				r.Violation(ck.JoinSig("recreate", store, "valid-setting-refused", "acl", fmtResp(resp)), map[string]any{"config": fmt.Sprintf("%+v", cfg), "response": resp.String()})
+				broken = true
+			}
+			if resp := f.Do(gw.Root, "DELETE", "/reb", "", nil, nil); !resp.OK() {
+				r.Violation(ck.JoinSig("recreate", store, "empty-bucket-not-deletable", fmtResp(resp)), map[string]any{"config": fmt.Sprintf("%+v", cfg), "response": resp.String()})
+				broken = true
+			}
+			if broken {
+				f.Close()
+				continue
+			}
 			if restart {
 				f.Restart()
 			}
 			Must(f.CreateBucket(gw.Root, "reb"), "create again")
 			Must(f.Do(gw.Root, "PATCH", "/change-bucket-owner", gw.Q("bucket", "reb", "owner", "usr2"), nil, nil), "chown again")
 			r.Distinct(fmt.Sprintf("recreate|%v|%v|%v", cfg.Sidecar, cfg.Versioning, restart))
-			store := "xattr"
-			if cfg.Sidecar {
-				store = "sidecar"
-			}
 			for _, probe := range []struct{ q, marker string }{{"tagging", "first"}, {"policy", "usr3"}, {"object-lock", "COMPLIANCE"}, {"cors", "first.example"}, {"versioning", "<Status>"}, {"acl", "usr3"}, {"acl", "usr1"}, {"ownershipControls", "BucketOwnerPreferred"}} {
 				resp := f.Do(gw.Root, "GET", "/reb", probe.q, nil, nil)
 				r.Add("evaluations", 1)
@@ -519,7 +533,7 @@ func c16Settings(r *ck.Run) {
 		return fmt.Sprintf(`{"Statement":[{"Effect":"Allow","Principal":"usr3","Action":"%s","Resource":"arn:aws:s3:::bk-main/*"}]}`, action)
 	}
 	settings := map[string]c16Setting{
-		"tagging":    {Query: "tagging", Docs: []string{tagDoc("k1", "v1"), tagDoc("k2", "v 2")}, CanDel: true},
+		"tagging":    {Query: "tagging", Docs: []string{tagDoc("k1", "a-longer-value-1"), tagDoc("k2", "v 2")}, CanDel: true},
 		"policy":     {Query: "policy", Docs: []string{pol("s3:GetObject"), pol("s3:PutObject")}, CanDel: true},
 		"ownership":  {Query: "ownershipControls", Docs: []string{"<OwnershipControls><Rule><ObjectOwnership>BucketOwnerPreferred</ObjectOwnership></Rule></OwnershipControls>", "<OwnershipControls><Rule><ObjectOwnership>ObjectWriter</ObjectOwnership></Rule></OwnershipControls>"}, CanDel: true},
 		"versioning": {Query: "versioning", Docs: []string{"<VersioningConfiguration><Status>Enabled</Status></VersioningConfiguration>", "<VersioningConfiguration><Status>Suspended</Status></VersioningConfiguration>"}},
@@ -534,7 +548,7 @@ func c16Settings(r *ck.Run) {
 	alpha = append(alpha, op{"", "restart"})
 	// what a read must show for a value
 	expectIn := map[string][]string{
-		"tagging|0": {"<Key>k1</Key>", "<Value>v1</Value>"}, "tagging|1": {"<Key>k2</Key>", "<Value>v 2</Value>"},
+		"tagging|0": {"<Key>k1</Key>", "<Value>a-longer-value-1</Value>"}, "tagging|1": {"<Key>k2</Key>", "<Value>v 2</Value>"},
 		"policy|0": {"s3:GetObject"}, "policy|1": {"s3:PutObject"},
 		"ownership|0": {"BucketOwnerPreferred"}, "ownership|1": {"ObjectWriter"},
 		"versioning|0": {"<Status>Enabled</Status>"}, "versioning|1": {"<Status>Suspended</Status>"},
@@ -577,10 +591,23 @@ func c16Settings(r *ck.Run) {
 			continue
 		}
 		seen[key] = true
-		w := NewWorld("c16s", gw.Opts{Versioning: true})
-		f := w.F
+		// alternate the metadata store between programs (a value replaced by a shorter one must not keep its tail)
+		sopts := gw.Opts{Versioning: true, Sidecar: pi%2 == 1}
+		f := NewFx("c16s", sopts)
+		usersFor(f)
+		w := struct{ Bucket string }{"bk-main"}
 		ok := true
+		if resp := f.CreateBucket(gw.Root, w.Bucket, "x-amz-object-ownership", "BucketOwnerPreferred"); !resp.OK() {
+			r.Violation(ck.JoinSig("settings", "create-bucket-failed", fmtResp(resp)), map[string]any{"config": fmt.Sprintf("%+v", sopts), "response": resp.String()})
+			ok = false
+		} else if resp := f.Do(gw.Root, "PATCH", "/change-bucket-owner", gw.Q("bucket", w.Bucket, "owner", "usr1"), nil, nil); !resp.OK() {
+			r.Violation(ck.JoinSig("settings", "change-bucket-owner-failed", fmtResp(resp)), map[string]any{"config": fmt.Sprintf("%+v", sopts), "response": resp.String()})
+			ok = false
+		}
 		for si, oi := range prog {
+			if !ok {
+				break
+			}
 			o := alpha[oi]
 			switch o.Kind {
 			case "restart":
@@ -646,7 +673,7 @@ func c16Settings(r *ck.Run) {
 			}
 		}
 		r.Distinct("settings|" + key)
-		w.Close()
+		f.Close()
 	}
 	r.Outcome("settings-done")
 	// DeleteBucket succeeds only on a bucket without objects, directory objects, versions or delete markers
